@@ -421,6 +421,10 @@ def is_instance(value: Any, type_: Any) -> bool:
     has been called.
     """
 
+    # A NewType (at any depth of the annotation) is checked as its supertype
+    if is_new_type(type_):
+        return is_instance(value, unwrap_newtype(type_))
+
     # We do not want Python implicit isinstance(True, int) == True
     if type_ is int and (value is True or value is False):
         return False
